@@ -395,8 +395,11 @@ def c17_nontrivial(il, meta):
 
 
 PROPS["C17"] = {
-    "rule": "random schema-aware documents x a family of probe transformers: the identity (nothing rewritten), one hook at a time (11 hooks: definition, operation, fragment, selection set, field, fragment spread, inline fragment, directive, argument, value, variable definition), random hook combinations and all hooks, each hook logging every call and rewriting a pseudo-randomly chosen subset of its nodes in a recognisable way (moduli 1..3, offsets 0..6); plus ALL 127 Keep/Replace patterns over selection lists of length 0..6 (exhaustive). Compared: the call log (kind and identity of every hook call, in order), keep/replace of the result, and the complete resulting document (names, aliases, positions, type conditions, list orders and lengths) against the extracted model. distinct = distinct (document, probe); non-trivial = the probe rewrites something (result is a replacement) and at least 10 hook calls",
+    "rule": "random schema-aware documents x a family of probe transformers: the identity (nothing rewritten), one hook at a time (11 hooks: definition, operation, fragment, selection set, field, fragment spread, inline fragment, directive, argument, value, variable definition), random hook combinations and all hooks, each hook logging every call and rewriting a pseudo-randomly chosen subset of its nodes in a recognisable way (moduli 1..3, offsets 0..6); plus ALL 127 Keep/Replace patterns over selection lists of length 0..6 (exhaustive). Compared: the call log (kind and identity of every hook call, in order), keep/replace of the result, and the complete resulting document (names, aliases, positions, type conditions, list orders and lengths) against the extracted model, and the call log and resulting document against the specification (hook_calls / smap_document of spec/SpecTransform.v). distinct = distinct (document, probe); non-trivial = the probe rewrites something (result is a replacement) and at least 10 hook calls",
     "nontrivial": c17_nontrivial,
+    # oracle section: the specification's list of hook calls (logged) and its structural map of the
+    # document; the implementation's log and resulting document must equal them
+    "compare_spec": lambda il, sl, meta, exempt: [l for l in il if not l.startswith("RESULT ")] == sl,
 }
 
 
